@@ -442,20 +442,37 @@ func checkCommitGate(r *Run, p *Prog, refs *Refs) {
 				return false
 			}
 			if v, ok := callee.(*types.Var); ok && !v.IsField() {
-				if rhs, _, ok := varDefinedBy(fn, v); ok {
-					mentions := false
-					inspectNoLit(rhs, func(y ast.Node) bool {
-						if id, ok := y.(*ast.Ident); ok {
-							if f, ok := fn.Pkg.TypesInfo.Uses[id].(*types.Func); ok && (f.Origin() == insert.Obj || f.Origin() == update.Obj) {
-								mentions = true
-							}
-						}
+				// every value ever assigned to the function variable refers to insert/update
+				// (lo.Ternary(.., insert, update), or "f := update; if first { f = insert }")
+				nAssigned, allMention := 0, true
+				inspectNoLit(fn.Body, func(z ast.Node) bool {
+					as, ok := z.(*ast.AssignStmt)
+					if !ok || len(as.Lhs) != len(as.Rhs) {
 						return true
-					})
-					if mentions {
-						out = call
-						return false
 					}
+					for i, l := range as.Lhs {
+						if objOf(fn, l) != types.Object(v) {
+							continue
+						}
+						nAssigned++
+						mentions := false
+						inspectNoLit(as.Rhs[i], func(y ast.Node) bool {
+							if id, ok := y.(*ast.Ident); ok {
+								if f, ok := fn.Pkg.TypesInfo.Uses[id].(*types.Func); ok && (f.Origin() == insert.Obj || f.Origin() == update.Obj) {
+									mentions = true
+								}
+							}
+							return true
+						})
+						if !mentions {
+							allMention = false
+						}
+					}
+					return true
+				})
+				if nAssigned > 0 && allMention {
+					out = call
+					return false
 				}
 			}
 			return true
